@@ -124,6 +124,12 @@ class ScopeContext:
                     exc_tb=exc_tb,
                 )
 
+        except BaseException as exc:
+            # cleanup failed or was cancelled - let the task group know about it,
+            # spawned tasks have to be cancelled instead of awaited as if all went fine
+            exc_type, exc_val, exc_tb = type(exc), exc, exc.__traceback__
+            raise
+
         finally:
             try:
                 await self._task_group_context.__aexit__(
